@@ -49,6 +49,8 @@ PANIC_NOTES = [
     ("tile_id::coord_to_tile_id", "shift", "1 << z", "dominated by `if z >= 32 { bail }`", {"kind": "fact", "fact": "z < 32"}),
     ("tile_id::coord_to_tile_id", "shift", "1 << <bin>", "t_z < z <= 31, so the i64 shift amount t_z*2 is at most 60", {"kind": "fact", "fact": "z < 32"}),
     ("tile_id::tile_id_to_coord", "shift", "1 << t_z", "t_z iterates the constant range 0..32; 1<<31 squared is 2^62 and fits the 64-bit accumulator", None),
+    # ---- vector tile geometry (lazy half of decoding a tile)
+    ("VectorTileFeature::to_geometry", "index", "ring[", "dominated by ensure!(ring.len() >= 4): index len-1 exists and the subtraction cannot underflow", {"kind": "fact", "fact": "ring.len() >= 4"}),
     # ---- mbtiles coverage
     ("MBTilesReader::get_bbox_pyramid", "std", "clamp",
      "clamp(0, max_value): max_value = min(2^z - 1, i32::MAX) >= 0 because the zoom range was validated (ensure!(z0 >= 0 && z1 <= 31)) and z runs over z0..=z1", None),
